@@ -173,7 +173,7 @@ def close_mol_row(mol, j, frame, i, tol):
 _HRD = dict(_H, close_mol_row=close_mol_row, csv_tolerance=F.csv_tolerance)
 
 _CASES = [(p, c) for p in ("m.csv", "m.pq", "m.parquet", "m.txt", "m")
-          for c in (("z", "y", "x", "zvec", "yvec", "xvec", "f0"), ("z", "y", "x", "zvec", "yvec", "xvec"))]
+          for c in (("z", "y", "x", "zvec", "yvec", "xvec", "g1", "f0"), ("z", "y", "x", "zvec", "yvec", "xvec"))]
 
 
 class TFileCases(TSpec):
@@ -194,7 +194,7 @@ class _TFileCase(TSpec):
 
     def src(self, name, model):
         n = max(int(_mget(model, "df_rows", 4)), 0)
-        feat = ", features={'f0': (np.arange(%d) * 3 + 2) %% 5 * 2.5}" % n if "f0" in self.cols else ""
+        feat = ", features={'g1': np.arange(%d) * 1.5, 'f0': (np.arange(%d) * 3 + 2) %% 5 * 2.5}" % (n, n) if "f0" in self.cols else ""
         return (f"(lambda p: (_Molecules(_generic_array(({n}, 3), 'real') * 3.1 + 4.0, "
                 f"_Rotation.random({n}, random_state=3) if {n} else None{feat}).to_file(p), p)[1])(tmp_path({self.p!r}))")
 
@@ -222,7 +222,7 @@ class from_file:
     imports = _IMPORTS + _TMP
     native_call = "_Molecules.from_file(args['path'])"
     native = {"count": "True", "invariant": "_native_invariant(result)", "rows": "_native_reload_ok(result, path)",
-              "features": "True"}
+              "features": "list(result.features.columns) == [c for c in written(path)[1].columns if c not in ('z', 'y', 'x', 'zvec', 'yvec', 'xvec')]"}
     ensures = {
         "count": "n_of(result) == stored(path).n",
         "invariant": "lengths_agree(result)",
